@@ -49,6 +49,7 @@ def run(prog, chk):
     C07.cli_config_mapping(prog, chk)  # border / scale given on the command line reach the configuration the extent is computed with
     from props import geomalg
     geomalg.check_sites(prog, chk, "C08")
+    geomalg.check_float_truncation(prog, chk)  # no float is cut down to an integer on the way (a truncated distance / coordinate makes different candidates tie)
     geomalg.check(prog, chk, "C08", floor=27)
     from props import strops
     strops.check_for(prog, chk, "C08")  # A14.str-ops: how this property's strings are cut up is a reviewed, frozen inventory
